@@ -25,6 +25,8 @@ def N(name):
 
 def rust(t):
     k = t[0]
+    if k == "raw":          # literal Rust type text (only for probes that need no reference denotation: C01, C02)
+        return t[1]
     if k == "prim":
         return t[1]
     if k == "named":
@@ -57,6 +59,8 @@ def rust(t):
 def skeleton(t):
     """constructor skeleton with leaves normalised — used for signatures"""
     k = t[0]
+    if k == "raw":
+        return "raw"
     if k in ("prim", "named", "unit"):
         return {"prim": "$", "named": "N", "unit": "()"}[k]
     if k == "ref":
@@ -72,7 +76,7 @@ def skeleton(t):
 
 def depth(t):
     k = t[0]
-    if k in ("prim", "named", "unit"):
+    if k in ("prim", "named", "unit", "raw"):
         return 0
     if k == "ref":
         return depth(t[1])
@@ -86,7 +90,7 @@ def named_in(t, ok_only=False):
     k = t[0]
     if k == "named":
         return {t[1]}
-    if k in ("prim", "unit"):
+    if k in ("prim", "unit", "raw"):
         return set()
     if k == "tuple":
         s = set()
